@@ -60,6 +60,7 @@ structure StaticState where
   mount : Option Mount := none
   viaSym : Bool := false       -- `viasym` seen, the next mount consumes it
   symMount : Bool := false     -- the root of the current mount was handed to rux as a symbolic link
+  more : List (Mount × Bool) := []   -- further mounts on the same router (`addmount`), each with its link flag
 
 def StaticState.look (s : StaticState) (full : Bytes) : Node :=
   if full ∈ s.files ∨ full ∈ secrets then .file
@@ -88,6 +89,25 @@ def properAncestors (p : Bytes) : List Bytes :=
 def StaticState.linkBelowFile (s : StaticState) (m : Mount) : Bool :=
   s.symMount && (properAncestors m.target).any (· ∈ s.files)
 
+/-- the first stage of `serve`: does the route of the mount match the request at all? -/
+def mountMatches (m : Mount) (q : Req) : Bool :=
+  let p1 := formatPath m.strict (if m.enc then q.esc else q.path)
+  match m.kind with
+  | .dir | .fs => (capture m.pfx none p1).isSome
+  | .files => (capture m.pfx (some m.exts) p1).isSome
+  | .file => p1 = formatPath m.strict m.pfx
+
+/-- the literal text every path matched by the route of the mount starts with -/
+def mountKey (m : Mount) : Bytes :=
+  match m.kind with
+  | .file => formatPath m.strict m.pfx
+  | _ => routeStatic m.pfx
+
+/-- no path can be matched by the routes of both mounts: then it does not matter in which order the router
+    tries them (regular before irregular routes, first path segment, registration order) -/
+def mountsDisjoint (a b : Mount) : Bool :=
+  !Bytes.hasPrefix (mountKey a) (mountKey b) && !Bytes.hasPrefix (mountKey b) (mountKey a)
+
 def parseKind : String → Option Kind
   | "dir" => some .dir
   | "fs" => some .fs
@@ -111,9 +131,10 @@ def staticStep (s : StaticState) : List String → StaticState × String
   | ["mount", kind, enc, pfx, exts, target] =>
     match parseKind kind, Bytes.ofHex pfx, parseHexList exts, Bytes.ofHex target with
     | some k, some p, some es, some t =>
-      let s := { s with symMount := s.viaSym, viaSym := false }
+      let s := { s with symMount := s.viaSym, viaSym := false, more := [] }
       if t ≠ [] ∧ ¬ okRel t then ({ s with mount := none }, "unsupported") else
-      -- flags: bit 0 UseEncodedPath, bit 1 EnableCaching (no effect on what a request observes), bit 2 StrictLastSlash
+      -- flags: bit 0 UseEncodedPath, bit 1 EnableCaching (no effect on what a request observes), bit 2 StrictLastSlash,
+      -- bits 3,4 CachingWithNum(1..3) (no effect either)
       let fl := enc.toNat?.getD 0
       let m : Mount := { kind := k, enc := fl % 2 = 1, strict := (fl / 4) % 2 = 1, pfx := p, exts := es,
                          target := symRoot ++ t }
@@ -125,11 +146,34 @@ def staticStep (s : StaticState) : List String → StaticState × String
     | none, some _, some _, some _ => (s, "unsupported")
     | some m, some p, some r, some e =>
       if p.length > 200 ∨ e.length > 600 then (s, "unsupported") else
+      if s.more ≠ [] then
+        -- several mounts whose routes are pairwise disjoint: the one that matches answers, otherwise no route
+        let q : Req := { path := p, raw := r, esc := e }
+        match ((m, s.symMount) :: s.more).find? (fun ms => mountMatches ms.1 q) with
+        | none => (s, "4 - ;; 404 -")
+        | some (mm, sym) =>
+          if sym && (properAncestors mm.target).any (· ∈ s.files) then (s, "unsupported") else
+          let resp := serve s.look mm q
+          let names := if mm.kind = .fs then hexList resp.names else "-"
+          (s, s!"{resp.status / 100} {servedStr resp.served} ;; {resp.status} {names}")
+      else
       if s.linkBelowFile m then (s, "unsupported") else
       let resp := serve s.look m { path := p, raw := r, esc := e }
       let names := if m.kind = .fs then hexList resp.names else "-"
       (s, s!"{resp.status / 100} {servedStr resp.served} ;; {resp.status} {names}")
     | _, _, _, _ => (s, "bad-op")
+  | ["addmount", kind, _flags, pfx, exts, target] =>
+    -- one more Static* call on the router of the current mount (router options stay)
+    match s.mount, parseKind kind, Bytes.ofHex pfx, parseHexList exts, Bytes.ofHex target with
+    | none, some _, some _, some _, some _ => ({ s with viaSym := false }, "unsupported")
+    | some m0, some k, some p, some es, some t =>
+      let sym := s.viaSym
+      let s := { s with viaSym := false }
+      let m : Mount := { kind := k, enc := m0.enc, strict := m0.strict, pfx := p, exts := es, target := symRoot ++ t }
+      if (t = [] ∨ okRel t) ∧ m.supported ∧ ((m0 :: s.more.map (·.1)).all (mountsDisjoint m)) then
+        ({ s with more := s.more ++ [(m, sym)] }, "ok")
+      else ({ s with mount := none, more := [] }, "unsupported")
+    | _, _, _, _, _ => (s, "bad-op")
   | ["rawbad", _] => (s, "rejected")
   | ["viasym"] =>
     -- the root of the next mount is handed to rux as a symbolic link whose destination is the mount's target
